@@ -1,4 +1,5 @@
 MODULES = [
     'harness.c01',
     'harness.c09',
+    'harness.c14',
 ]
